@@ -622,6 +622,15 @@ class WantEcho(ProtocolStateBase):
         if pkt__hdr != self._sent_cmd.tx_header:
             return
 
+        # NOTE: beware collisions: same header, but sent by another device (not an echo)
+        hgi_id = self._context._protocol.hgi_id
+        if pkt.src.id != self._sent_cmd.src.id and (
+            self._sent_cmd.src.id != HGI_DEVICE_ID  # is impersonating, or
+            or (hgi_id != HGI_DEVICE_ID and pkt.src.id != hgi_id)  # know real addr, or
+            or pkt.src.id[:2] != HGI_DEVICE_ID[:2]  # not a gateway
+        ):
+            return
+
         # # HACK: for testing - drop some packets
         # import random
         # if random.random() < 0.2:
